@@ -182,6 +182,15 @@ CHECKS = {
         design_ref="DESIGN.md section 4, C15", note=E1_NOTE,
         technique="stateless model checking of the implementation with an automaton oracle over observer notifications",
     ),
+
+    "C16": dict(
+        engine="E1", category="model_checking",
+        text=("Stateless model checking of uberjob.run where every call returns a fresh weak-referenceable object and a recording observer's 'completed' notification marks the end of a call's engine-side processing: "
+              "all DAGs on 3 and 4 calls and the seven shapes of tests/test_scheduler.py (argument and keyword edges), outputs none / last node / all sinks, with and without a registry, 1-2 workers, both schedulers with RandomQueue draws enumerated, "
+              "every schedule within the preemption bound. At EVERY call start and EVERY completed notification of every execution, each result whose producer and all needed consumers are completed and which is not part of the output must be dead after gc.collect(); output results must be alive at return."),
+        design_ref="DESIGN.md section 4, C16", note=E1_NOTE + " Liveness is observed through weakref + gc.collect(); results reference nothing, stores keep no reference to written values.",
+        technique="stateless model checking of the implementation with a weak-reference liveness oracle at every call boundary",
+    ),
 }
 
 NOT_APPLICABLE = {
